@@ -48,6 +48,15 @@ def permuted_blocks(draw, model):
         else:
             out.append({"kind": b["kind"], "comps": b["comps"], "items": items})
     out = list(draw(st.permutations(out)))
+    # a header-less expressions block directly after a headed one would be read as part of it
+    changed = True
+    while changed:
+        changed = False
+        for i in range(1, len(out)):
+            a, b = out[i - 1], out[i]
+            if a["kind"] == "expressions" and b["kind"] == "expressions" and a["comps"] != [""] and b["comps"] == [""]:
+                out[i - 1], out[i] = b, a
+                changed = True
     return out
 
 
